@@ -55,6 +55,8 @@ class Gen:
             "inner": FnDef("inner", [("a", U8), ("b", U8)], U8, Block([ExprStmt(Block([Let("a", U8, b)])),
                                                                         Let("b", U8, Block([Let("b", U8, a)], Var("b", U8)))], b)),
             "one": FnDef("one", [("b", U8)], U8, Block([Let("a", U8, b)], a)),
+            "fsub": FnDef("fsub", [("e", U8), ("acc", U8)], U8, Block([Let(PTuple([PIgnore(), PVar("d")]), TUP(BOOL, U8),
+                                                                           JetCall("subtract_8", [Var("e", U8), Var("acc", U8)], TUP(BOOL, U8)))], Var("d", U8))),
             # function scopes of every arity whose body re-binds a parameter (values derived with a jet:
             # witnesses are not allowed outside main)
             "rebind1": FnDef("rebind1", [("a", U8)], U8, Block([Let("a", U8, JetCall("complement_8", [a], U8))], a)),
@@ -134,7 +136,9 @@ OTHER = [("swap", None), ("swap_arr", None), ("copy", "a"), ("copy", "b"), ("blo
          ("match_bool_block", None),
          ("call", "first"), ("call", "second"), ("call", "swapped"), ("call", "shadow"), ("call", "inner"), ("call", "one"),
          ("call", "rebind1"), ("call", "rebind1_then"), ("call", "rebind1_tuple"), ("call", "rebind1_arm"), ("call", "rebind1_opt"),
-         ("call", "rebind0"), ("call", "rebind3")]
+         ("call", "rebind0"), ("call", "rebind3"),
+         # one name used twice in one call / one list literal of plain variables (after S41 / S46)
+         ("dup_jet", "a"), ("dup_jet", "b"), ("dup_call", "a"), ("dup_call", "b"), ("list_vars", None), ("list_vars_rev", None)]
 
 
 def emit(g, item, bound, depth, inner_items):
@@ -204,6 +208,28 @@ def emit(g, item, bound, depth, inner_items):
         inner_scope = dict(bound, **{n: leaf})
         m = Match(g.wit(BOOL), Arm("false", Block([Let(n, leaf, g.wit(leaf))] + g.uses(inner_scope))), Arm("true", Block(t_inner)))
         return [ExprStmt(m)], bound
+    if kind == "dup_jet":
+        # the same plain variable in both argument positions of an order-sensitive jet
+        if par not in bound:
+            return None
+        t = bound[par]
+        g.nd = getattr(g, "nd", 0) + 1
+        d = "d%d" % g.nd
+        return [Let(PTuple([PIgnore(), PVar(d)]), TUP(BOOL, t), JetCall("subtract_%d" % t[1], [Var(par, t), Var(par, t)], TUP(BOOL, t))), g.use(d, t)], bound
+    if kind == "dup_call":
+        if bound.get(par) != U8:
+            return None
+        other = "b" if par == "a" else "a"
+        return [Let(other, U8, Call(g.fn("second"), [Var(par, U8), Var(par, U8)]))], dict(bound, **{other: U8})
+    if kind in ("list_vars", "list_vars_rev"):
+        # a list literal whose first block consists of plain variables, folded with an order-sensitive function
+        if not {"a", "b"} <= set(bound) or bound["a"] != U8 or bound["b"] != U8:
+            return None
+        g.nd = getattr(g, "nd", 0) + 1
+        d = "r%d" % g.nd
+        names = ["a", "b"] if kind == "list_vars" else ["b", "a"]
+        lst = ListE([Var(n, U8) for n in names], U8, 4)
+        return [Let(d, U8, Fold(g.fn("fsub"), 4, lst, Lit(U8, 1))), g.use(d, U8)], bound
     if kind == "call":
         f = g.fn(par)
         args = []
